@@ -449,7 +449,7 @@ def structured_deltas(rng, n):
     for _ in range(n):
         bn = rng.choice(bases)
         base = base_bytes(bn)
-        kind = rng.choice(["varint", "copymask", "trunc", "op0", "trailing", "amplify", "declared", "insert", "randombody"])
+        kind = rng.choice(["varint", "copymask", "trunc", "op0", "trailing", "amplify", "declared", "insert", "randombody", "wrap64"])
         src = enc(len(base))
         if kind == "varint":
             nb = rng.randint(1, 11)
@@ -457,6 +457,18 @@ def structured_deltas(rng, n):
             hs = rng.choice([src, pad_varint(len(base), nb)])
             hd = pad_varint(dst, max(nb, len(enc(dst)))) if rng.random() < 0.7 else enc(dst)
             body = bytes([len(base)]) + base[:0] if False else (b"\x90" + bytes([min(len(base), 255)]) if len(base) else b"")
+            out.append((bn, hs + hd + body))
+        elif kind == "wrap64":
+            # an otherwise valid delta whose source or target size header says N + k*2^64 (a 10+ byte varint whose low 64 bits are the
+            # honest size): a decoder that drops the bits shifted past 64 accepts it and returns N bytes for a declared N + k*2^64
+            k = rng.choice([1, 1, 2, 3, 64, 2 ** 20])
+            if len(base) and len(base) <= 255:
+                body, honest = b"\x90" + bytes([len(base)]), len(base)
+            else:
+                body, honest = b"\x05hello", 5
+            which = rng.choice(["src", "dst", "both"])
+            hs = enc(len(base) + (k << 64)) if which in ("src", "both") else src
+            hd = enc(honest + (k << 64)) if which in ("dst", "both") else enc(honest)
             out.append((bn, hs + hd + body))
         elif kind == "declared":
             dst = rng.choice([2 ** 20, 2 ** 28, 2 ** 30, 2 ** 31 - 1, 2 ** 31, 2 ** 32, 2 ** 40, 2 ** 62, 2 ** 63, 2 ** 63 - 1])
